@@ -25,7 +25,7 @@ EXPLANATION = (
     "trimming never edits in place a shard or cview list shared with the wrapped (possibly cached) canvas - otherwise a re-render of the unchanged child has a different size."
     ' Added after seed round 3: (9) FOCUS-FWD - every function that receives `focus` hands it on to each callee that takes it, so render(), rows() and pack() agree on the size of the focused rendering; (10) the Scrollable clamp rule of C20 (an unclamped position trims more rows than exist); (11) ACCUM - the running column of shards_trim_sides and the space budget of Columns.column_widths advance in every continuing iteration; (12) BarGraph.hlines_display collapses h-lines by the row it stores.'
     ' Round 4: (13) LOOPFRESH, (14) segment width measured over its own offsets (C03.13), (15) scroll-bar parts (C20.3).'
-    " Round-4 triage: (17) widget text is cut into lines at the layout's separator only - no str.splitlines() in the widget / layout / canvas layers; split()/count() in a measurement use the newline constant of the layout. Round 5: (18) Frame.render cuts each part with its own trim."
+    " Round-4 triage: (17) widget text is cut into lines at the layout's separator only - no str.splitlines() in the widget / layout / canvas layers; split()/count() in a measurement use the newline constant of the layout. Round 5: (18) Frame.render cuts each part with its own trim; (19) SHADOW - no loop target clobbers a live local (the rule that found the resize() defect of vterm, applied to all widget modules)."
 )
 NOT_DECIDED = (
     "That composed canvases actually have the requested size for all trees/sizes/texts (value semantics of shards, layout and padding); truthfulness of sizing(); wide-character column "
@@ -339,6 +339,12 @@ def rule_frame_trims(ctx: Ctx) -> RuleResult:
     return rr
 
 
+def _shadow(ctx: Ctx):
+    from ..rules import shadow
+
+    return shadow.run_shadow(ctx.p, "C01.19", modules(ctx.p), floor=100, description="no `for` target in the widget / canvas / layout modules clobbers a local that is read after the loop with its earlier meaning")
+
+
 def run(ctx: Ctx):
     p = ctx.p
     mods = modules(p)
@@ -360,6 +366,7 @@ def run(ctx: Ctx):
         _segment_positive(ctx),
         rule_line_separator(ctx),
         rule_frame_trims(ctx),
+        _shadow(ctx),
     ]
 
 
